@@ -1113,6 +1113,14 @@ func TestReplay(t *testing.T) {
 			_, err := checkC04(c)
 			return err
 		},
+		"TestC04TornMutationLog": func(raw json.RawMessage) error {
+			var c mlogCase
+			if err := json.Unmarshal(raw, &c); err != nil {
+				return err
+			}
+			_, err := checkTornMutationLog(c)
+			return err
+		},
 		"TestC04TornLog": func(raw json.RawMessage) error {
 			var c tornCase
 			if err := json.Unmarshal(raw, &c); err != nil {
@@ -1121,5 +1129,182 @@ func TestReplay(t *testing.T) {
 			_, _, err := checkTorn(c)
 			return err
 		},
+	})
+}
+
+// ---------------------------------------------------------------------------------------------------------------------
+// TestC04TornMutationLog — the per-instance JSON mutation log (header write, then payload write) cut at record
+// boundaries and inside records: a new server must serve exactly the complete records, and records acknowledged after
+// the restart must be served after the next one.
+
+type mlogCase struct {
+	Puts  int   `json:"puts"`  // records written before the cut (1..5)
+	Extra int   `json:"extra"` // records written after the restart on the cut log (1..2)
+	Cuts  []int `json:"cuts"`  // additional cut lengths (mod file size)
+}
+
+func mutationRecords(c *drive.Child, uuid string) ([]string, drive.Resp, error) {
+	r, err := c.Do("GET", "node/"+uuid+"/kv/mutations", nil)
+	if err != nil {
+		return nil, r, err
+	}
+	var raw []json.RawMessage
+	if !r.OK() || json.Unmarshal(r.Body, &raw) != nil {
+		return nil, r, nil
+	}
+	var out []string
+	for _, m := range raw {
+		var rec map[string]interface{}
+		if json.Unmarshal(m, &rec) != nil {
+			return nil, r, nil
+		}
+		out = append(out, fmt.Sprint(rec["Key"]))
+	}
+	return out, r, nil
+}
+
+func checkTornMutationLog(c mlogCase) (trials int, err error) {
+	dir, e := scratch()
+	if e != nil {
+		return 0, e
+	}
+	defer os.RemoveAll(dir)
+	srv := filepath.Join(dir, "srv")
+	ch, e := drive.StartChild(srv)
+	if e != nil {
+		return 0, fmt.Errorf("harness: %v", e)
+	}
+	kill := func() {
+		if ch != nil {
+			ch.Kill()
+		}
+	}
+	defer func() { kill() }()
+	r, e := ch.Do("POST", "repos", []byte(`{"alias":"mlog"}`))
+	if e != nil || !r.OK() {
+		return 0, fmt.Errorf("harness: new repo: %v %s", e, r)
+	}
+	var rr struct{ Root string }
+	json.Unmarshal(r.Body, &rr)
+	if r, e = ch.Do("POST", "repo/"+rr.Root+"/instance", []byte(`{"typename":"keyvalue","dataname":"kv"}`)); e != nil || !r.OK() {
+		return 0, fmt.Errorf("harness: new instance: %v %s", e, r)
+	}
+	var want []string
+	for i := 0; i < c.Puts; i++ {
+		k := fmt.Sprintf("key%d", i)
+		if r, e = ch.Do("POST", "node/"+rr.Root+"/kv/key/"+k, []byte(fmt.Sprintf("value-%d", i))); e != nil || !r.OK() {
+			return 0, fmt.Errorf("harness: put: %v %s", e, r)
+		}
+		want = append(want, k)
+	}
+	got, resp, e := mutationRecords(ch, rr.Root)
+	if e != nil {
+		return 0, fmt.Errorf("harness: %v", e)
+	}
+	if fmt.Sprint(got) != fmt.Sprint(want) {
+		return 0, stats.Violf("C04/mutationlog/uncut/records-differ", "%d puts acknowledged, GET mutations answers %s", c.Puts, resp)
+	}
+	if e = ch.Shutdown(); e != nil {
+		return 0, fmt.Errorf("harness: shutdown: %v", e)
+	}
+	ch = nil
+	logs, _ := filepath.Glob(filepath.Join(srv, "mutations", "*.plog"))
+	if len(logs) != 1 {
+		return 0, fmt.Errorf("harness: expected one mutation log file, found %v", logs)
+	}
+	full, e := os.ReadFile(logs[0])
+	if e != nil {
+		return 0, fmt.Errorf("harness: %v", e)
+	}
+	// record framing of the log library: uint32 length, uint32 crc, uint16 type, payload
+	var ends []int
+	for p := 0; p+10 <= len(full); {
+		n := int(uint32(full[p]) | uint32(full[p+1])<<8 | uint32(full[p+2])<<16 | uint32(full[p+3])<<24)
+		p += 10 + n
+		if p > len(full) {
+			return 0, fmt.Errorf("harness: cannot parse the uncut mutation log")
+		}
+		ends = append(ends, p)
+	}
+	if len(ends) != c.Puts {
+		return 0, fmt.Errorf("harness: %d records in the log, %d puts", len(ends), c.Puts)
+	}
+	cuts := map[int]bool{}
+	for _, e := range ends {
+		for _, d := range []int{-11, -1, 0, 1, 4, 9, 10, 11} {
+			if e+d >= 0 && e+d <= len(full) {
+				cuts[e+d] = true
+			}
+		}
+	}
+	for _, x := range c.Cuts {
+		cuts[x%(len(full)+1)] = true
+	}
+	var order []int
+	for L := range cuts {
+		order = append(order, L)
+	}
+	sort.Ints(order)
+	for _, L := range order {
+		complete := 0
+		for complete < len(ends) && ends[complete] <= L {
+			complete++
+		}
+		if e = os.WriteFile(logs[0], full[:L], 0644); e != nil {
+			return trials, e
+		}
+		ctx := fmt.Sprintf("mutation log of %d records (%d bytes) cut at %d bytes", c.Puts, len(full), L)
+		if ch, e = drive.StartChild(srv); e != nil {
+			return trials, stats.Violf("C04/mutationlog/torn/restart-failed", "%s: %v", ctx, e)
+		}
+		got, resp, e := mutationRecords(ch, rr.Root)
+		if e != nil {
+			return trials, stats.Violf("C04/mutationlog/torn/read-never-answers-or-kills-server", "%s: GET mutations: %v; stderr: %s", ctx, e, ch.StderrTail(600))
+		}
+		if fmt.Sprint(got) != fmt.Sprint(want[:complete]) {
+			return trials, stats.Violf("C04/mutationlog/torn/records-differ", "%s: %d records were completely written, GET mutations answers %s", ctx, complete, resp)
+		}
+		now := append([]string(nil), want[:complete]...)
+		for i := 0; i < c.Extra; i++ {
+			k := fmt.Sprintf("late%d", i)
+			if r, e = ch.Do("POST", "node/"+rr.Root+"/kv/key/"+k, []byte("late")); e != nil || !r.OK() {
+				return trials, stats.Violf("C04/mutationlog/append-after-torn/put-refused", "%s, then POST key: %v %s", ctx, e, r)
+			}
+			now = append(now, k)
+		}
+		if e = ch.Shutdown(); e != nil {
+			return trials, fmt.Errorf("harness: shutdown: %v", e)
+		}
+		if ch, e = drive.StartChild(srv); e != nil {
+			return trials, stats.Violf("C04/mutationlog/append-after-torn/restart-failed", "%s: %v", ctx, e)
+		}
+		got, resp, e = mutationRecords(ch, rr.Root)
+		if e != nil {
+			return trials, stats.Violf("C04/mutationlog/append-after-torn/read-never-answers-or-kills-server", "%s, %d more puts, restart: GET mutations: %v", ctx, c.Extra, e)
+		}
+		if fmt.Sprint(got) != fmt.Sprint(now) {
+			return trials, stats.Violf("C04/mutationlog/append-after-torn/records-differ", "%s, then %d puts acknowledged and a clean restart: expected records of keys %v, GET mutations answers %s", ctx, c.Extra, now, resp)
+		}
+		if e = ch.Shutdown(); e != nil {
+			return trials, fmt.Errorf("harness: shutdown: %v", e)
+		}
+		ch = nil
+		trials++
+	}
+	return trials, nil
+}
+
+func TestC04TornMutationLog(t *testing.T) {
+	rapid.Check(t, func(t *rapid.T) {
+		c := mlogCase{Puts: rapid.IntRange(1, 4).Draw(t, "puts"), Extra: rapid.IntRange(1, 2).Draw(t, "extra"), Cuts: rapid.SliceOfN(rapid.IntRange(0, 1<<16), 0, 4).Draw(t, "cuts")}
+		stats.SetCur("C04", "TestC04TornMutationLog", c)
+		trials, err := checkTornMutationLog(c)
+		if !stats.Judge(t, "C04", "TestC04TornMutationLog", err, c) {
+			return
+		}
+		stats.Record(stats.HashJSON(c), trials > 1, []string{"mutation-log-cut"}, func() interface{} {
+			return map[string]interface{}{"puts": c.Puts, "cuts": trials}
+		})
+		stats.Count("C04/mutation-log-cuts", int64(trials))
 	})
 }
